@@ -99,6 +99,7 @@ func checkPlanMore(prop, tier string, n func(int, int) int, comp map[string][]st
 			Batches: []batchSpec{
 				{Label: "cli+faults", Engine: "cli", Prop: "C15", Runs: n(500, 30000)},
 				{Label: "cli-fault-free", Engine: "cli", Prop: "C15", Mode: "nofault", Runs: n(200, 10000), FaultFree: true},
+				{Label: "truncation-sweep", Engine: "cli", Prop: "C15", Mode: "truncsweep:%d", Runs: n(64, 64*24)},
 			},
 			Rule: "one run = 4-16 invocations of the real zlint binary built from the working tree; each invocation draws output mode (JSON, -pretty, -summary, -longSummary and combinations), selection flags, an optional -config file, 1-4 input files or stdin (written in a seeded chunk plan, each chunk handed over only after the child consumed the previous one), an encoding (PEM/DER/base64, suffix or -format stated) and stream/selector faults (truncate at k, empty, one flipped byte, garbage prefix/suffix, missing path, directory, wrong PEM armor, wrong stated format, lying suffix, unknown name/source/profile, bad regexp, pattern+names, missing or truncated configuration). Oracle: the delivered bytes are classified with the public decoders; acceptable inputs must give exit 0 and results equal to the in-process library with the same selection and configuration (and summary counts equal to the counts of those results), the first unacceptable input must give exit != 0 with result objects for the inputs before it only, selector faults must give exit != 0 and no result object. distinct_nontrivial = invocations with a fault fired or several inputs.",
 			Assumption: []string{
